@@ -55,6 +55,7 @@ def _all_gellmann_matrix_cache(d, tensor_n, with_I):
         ret = np.stack([functools.reduce(np.kron, [ret[y] for y in x]) for x in itertools.product(*tmp0)])
     if not with_I:
         ret = ret[:-1]
+    ret.flags.writeable = False #the cached array is handed out to every caller: an in-place edit would poison all later calls
     return ret
 
 
